@@ -321,6 +321,10 @@ func MakeFiller(p *Plan, src string) node.Filler {
 				tx.EffGasPrice = randInt(r, 64, false)
 				if r.IntN(4) == 0 {
 					tx.ContractAddr = nonZeroBytes(r, 20)
+					if r.IntN(2) == 0 {
+						// a contract creation: no recipient ("to": null)
+						tx.To = nil
+					}
 				}
 			}
 			nlogs := 0
